@@ -230,4 +230,71 @@ theorem planSubscribe_guard {s s' : State} {frm : Addr} {id : Nat} {denom : Deno
   obtain ⟨r, ⟨plan, hplan, _, hst, price, hp, _⟩, _⟩ := h
   exact ⟨plan, hplan, by simpa using hst, price, hp⟩
 
+/-! ### the converse direction: the checks succeed when their conditions hold -/
+
+theorem require_true' (m : String) : require true m = .ok () := rfl
+
+theorem sessStartNodeCheck_node {s : State} {sub : Sub} {n : Node} {node snode : Addr} {gb hr : Int} {dep : Coin}
+    (hk : sub.kind = .node snode gb hr dep) (h : n.addr = snode) : sessStartNodeCheck s sub n node = .ok () := by
+  unfold sessStartNodeCheck
+  simp only [hk, h, decide_true]
+  rfl
+
+theorem sessStartNodeCheck_plan {s : State} {sub : Sub} {n : Node} {node : Addr} {pid : Nat} {dn : Denom} {p : Plan}
+    (hk : sub.kind = .plan pid dn) (hp : getPlan s pid = some p)
+    (hl : hasPayoutForAccountByNode s p.prov node = .ok true) (hlink : s.nodeForPlan.has (pid, node) = true) :
+    sessStartNodeCheck s sub n node = .ok () := by
+  unfold sessStartNodeCheck
+  simp only [hk, hp, orReject, pure_bind', hl, ok_bind, hlink, require_true']
+
+theorem sessStartQuotaCheck_of {s : State} {sub : Sub} {acc : Addr}
+    (h1 : match sub.kind with | .node _ _ _ _ => acc = sub.addr | .plan _ _ => True)
+    (h2 : isHourly sub = true ∨ ∃ a, s.allocs.get (sub.id, acc) = some a ∧ a.used < a.granted) :
+    sessStartQuotaCheck s sub acc = .ok () := by
+  have tail : (if isHourly sub = true then pure () else do
+            let a ← orReject (s.allocs.get (sub.id, acc)) "allocation not found"
+            require (decide (a.used < a.granted)) "invalid allocation" : M Unit) = .ok () := by
+    rcases h2 with h2 | ⟨a, ha, hlt⟩
+    · simp only [h2, if_true]; rfl
+    · split
+      · rfl
+      · simp only [ha, orReject, pure_bind', hlt, decide_true, require_true']
+  unfold sessStartQuotaCheck
+  cases hk : sub.kind with
+  | node snode gb hr dep =>
+    simp only [hk] at h1 ⊢
+    have hd : decide (acc = sub.addr) = true := by simp [h1]
+    simp only [hd, require_true', ok_bind]
+    exact tail
+  | plan pid dn =>
+    simp only []
+    exact tail
+
+/-- The pending hook cannot panic when every indexed session exists; it touches no payout. -/
+theorem hookFold_ok (l : List Nat) :
+    ∀ (s : State), (∀ sid ∈ l, (s.sessions.get sid).isSome) →
+      ∃ s', l.foldlM (fun (s : State) (sid : Nat) => do
+        let x ← orPanic (s.sessions.get sid) "session for subscription key does not exist"
+        pure (if x.status = Status.StatusActive then sessionToPending s x else s)) s = .ok s' ∧ s'.payouts = s.payouts := by
+  induction l with
+  | nil => intro s _; exact ⟨s, rfl, rfl⟩
+  | cons a rest ih =>
+    intro s hs
+    obtain ⟨x, hx⟩ := Option.isSome_iff_exists.mp (hs a (by simp))
+    have hrest : ∀ sid ∈ rest, ((if x.status = Status.StatusActive then sessionToPending s x else s).sessions.get sid).isSome := by
+      intro sid hm
+      have h0 := hs sid (by simp [hm])
+      split
+      · show ((s.sessions.set x.id _).get sid).isSome
+        rw [Tbl.get_set]
+        split
+        · rfl
+        · exact h0
+      · exact h0
+    obtain ⟨s', h1, h2⟩ := ih _ hrest
+    refine ⟨s', ?_, ?_⟩
+    · simp only [List.foldlM, hx, orPanic]
+      exact h1
+    · rw [h2]; split <;> rfl
+
 end Hub.Model
